@@ -24,8 +24,9 @@ const (
 type Task struct {
 	ID     int
 	Name   string
-	wake   chan struct{}
+	wake   baton
 	fin    chan struct{}
+	joinAt uint32 // address used for the task-end -> Join happens-before edge
 	state  taskState
 	ready  func() bool
 	why    string
@@ -37,6 +38,7 @@ type Task struct {
 	Tag int
 }
 
+//go:norace
 func (t *Task) Done() bool { return t.state == stDone }
 
 // Violation is what an oracle reports.
@@ -113,12 +115,18 @@ var genCounter uint64
 var BaseTime = time.Unix(1_700_000_000, 0)
 
 // Active reports whether the caller runs inside a live simulation task.
+//
+//go:norace
 func Active() bool { return S != nil && !S.dying }
 
 // Dying reports that the run is being torn down (tasks unwinding).
+//
+//go:norace
 func Dying() bool { return S != nil && S.dying }
 
 // Cur returns the running task.
+//
+//go:norace
 func Cur() *Task {
 	if S == nil {
 		return nil
@@ -127,6 +135,8 @@ func Cur() *Task {
 }
 
 // CurID returns the id of the running task or -1.
+//
+//go:norace
 func CurID() int {
 	if S == nil || S.cur == nil {
 		return -1
@@ -134,34 +144,49 @@ func CurID() int {
 	return S.cur.ID
 }
 
-func (s *Sim) Now() int64   { return s.now }
-func (s *Sim) StepNo() int  { return s.steps }
+//go:norace
+func (s *Sim) Now() int64 { return s.now }
+
+//go:norace
+func (s *Sim) StepNo() int { return s.steps }
+
+//go:norace
 func (s *Sim) Hash() uint64 { return s.hash }
+
+//go:norace
 func (s *Sim) Tasks() []*Task {
 	return s.tasks
 }
 
 // H folds a value into the trace hash.
+//
+//go:norace
 func (s *Sim) H(v uint64) {
 	s.hash = (s.hash ^ v) * 0x100000001b3
 	s.hash ^= s.hash >> 29
 }
 
 // Probe counts a named rare condition.
+//
+//go:norace
 func Probe(name string) {
-	if S != nil {
+	if S != nil && !RaceMode {
 		S.Probes[name]++
 	}
 }
 
 // Fault counts a fired fault of the given kind.
+//
+//go:norace
 func Fault(kind string) {
-	if S != nil {
+	if S != nil && !RaceMode {
 		S.Faults[kind]++
 	}
 }
 
 // Log appends to the trace (only when tracing; never draws a choice).
+//
+//go:norace
 func Log(format string, a ...interface{}) {
 	s := S
 	if s == nil || !s.cfg.Trace {
@@ -175,10 +200,14 @@ func Log(format string, a ...interface{}) {
 }
 
 // Tracing is true when Log records.
+//
+//go:norace
 func Tracing() bool { return S != nil && S.cfg.Trace }
 
 // Run executes main as task 0 under a fresh simulation and returns it after all
 // tasks have been torn down.
+//
+//go:norace
 func Run(cfg Config, ch *Choices, main func()) *Sim {
 	if cfg.MaxSteps == 0 {
 		cfg.MaxSteps = 20000
@@ -194,7 +223,7 @@ func Run(cfg Config, ch *Choices, main func()) *Sim {
 	S = s
 	t := s.newTask("main", main)
 	s.cur = t
-	t.wake <- struct{}{}
+	t.wake.signal()
 	<-s.done
 	// tear down: every task that is not done is resumed with the kill flag and
 	// unwinds (runtime.Goexit) with the shims in pass-through mode.
@@ -206,51 +235,64 @@ func Run(cfg Config, ch *Choices, main func()) *Sim {
 		}
 		x.kill = true
 		s.cur = x
-		x.wake <- struct{}{}
+		x.wake.signal()
 		<-x.fin
 	}
 	S = nil
 	return s
 }
 
+//go:norace
 func (s *Sim) newTask(name string, f func()) *Task {
-	t := &Task{ID: len(s.tasks), Name: name, wake: make(chan struct{}, 1), fin: make(chan struct{}, 1)}
+	t := &Task{ID: len(s.tasks), Name: name, wake: newBaton(), fin: make(chan struct{}, 1)}
 	t.prio = s.strat.newPrio(s)
 	s.tasks = append(s.tasks, t)
-	go func() {
-		defer func() {
-			r := recover()
-			if r != nil && !s.dying && s.Viol == nil {
-				s.Viol = &Violation{Clause: "panic", Msg: fmt.Sprintf("task %s panicked: %v\n%s", t.Name, r, trimStack(debug.Stack()))}
-			}
-			wasKilled := t.kill
-			t.state = stDone
-			if wasKilled || s.dying {
-				t.fin <- struct{}{}
-				return
-			}
-			if r != nil {
-				s.end()
-				t.fin <- struct{}{} // never read; buffered
-				return
-			}
-			if t.ID == 0 {
-				// main returned: the run is over
-				s.end()
-				return
-			}
-			Log("task end")
-			s.resched(t)
-		}()
-		<-t.wake
-		if t.kill {
-			return
-		}
-		f()
-	}()
+	go s.taskMain(t, f)
 	return t
 }
 
+// taskMain is the body of every task goroutine.
+//
+//go:norace
+func (s *Sim) taskMain(t *Task, f func()) {
+	defer s.taskExit(t)
+	t.wake.await()
+	if t.kill {
+		return
+	}
+	f()
+}
+
+// taskExit runs when a task's function returns, panics or is torn down.
+//
+//go:norace
+func (s *Sim) taskExit(t *Task) {
+	r := recover()
+	if r != nil && !s.dying && s.Viol == nil {
+		s.Viol = &Violation{Clause: "panic", Msg: fmt.Sprintf("task %s panicked: %v\n%s", t.Name, r, trimStack(debug.Stack()))}
+	}
+	wasKilled := t.kill
+	RaceRelease(&t.joinAt)
+	t.state = stDone
+	if wasKilled || s.dying {
+		t.fin <- struct{}{}
+		return
+	}
+	if r != nil {
+		s.end()
+		t.fin <- struct{}{} // never read; buffered
+		return
+	}
+	if t.ID == 0 {
+		// main returned: the run is over
+		s.end()
+		return
+	}
+	Log("task end")
+	s.resched(t)
+}
+
+//go:norace
 func trimStack(b []byte) string {
 	lines := strings.Split(string(b), "\n")
 	if len(lines) > 40 {
@@ -261,6 +303,8 @@ func trimStack(b []byte) string {
 
 // end tells the driver that the run is over. The caller must not run task code
 // afterwards (it parks or exits).
+//
+//go:norace
 func (s *Sim) end() {
 	if !s.ended {
 		s.ended = true
@@ -269,8 +313,9 @@ func (s *Sim) end() {
 	}
 }
 
+//go:norace
 func (s *Sim) park(t *Task) {
-	<-t.wake
+	t.wake.await()
 	if t.kill {
 		runtime.Goexit()
 	}
@@ -278,6 +323,8 @@ func (s *Sim) park(t *Task) {
 
 // resched is called by the running task t at a scheduling point, with t.state
 // describing whether it can continue.
+//
+//go:norace
 func (s *Sim) resched(t *Task) {
 	next := s.pick(t)
 	if next == t {
@@ -292,13 +339,14 @@ func (s *Sim) resched(t *Task) {
 		return
 	}
 	s.cur = next
-	next.wake <- struct{}{}
+	next.wake.signal()
 	if t.state == stDone {
 		return
 	}
 	s.park(t)
 }
 
+//go:norace
 func (s *Sim) pick(t *Task) *Task {
 	s.steps++
 	t.Steps++
@@ -329,8 +377,11 @@ func (s *Sim) pick(t *Task) *Task {
 		}
 		if tIn {
 			// canonical order: the current task first, so that answer 0 means "continue"
+			// (no copy(): under -race it is a runtime call with race hooks even here)
 			run = append(run, nil)
-			copy(run[1:], run[:len(run)-1])
+			for i := len(run) - 1; i > 0; i-- {
+				run[i] = run[i-1]
+			}
 			run[0] = t
 		}
 		s.runbuf = run
@@ -369,6 +420,7 @@ func (s *Sim) pick(t *Task) *Task {
 	}
 }
 
+//go:norace
 func (s *Sim) describe() string {
 	var b strings.Builder
 	for _, x := range s.tasks {
@@ -387,11 +439,15 @@ func (s *Sim) describe() string {
 }
 
 // Describe returns the state of every task.
+//
+//go:norace
 func (s *Sim) Describe() string { return s.describe() }
 
 // ---- scheduling points used by shims, worlds and instrumented code ----
 
 // Yield is an always-on scheduling point.
+//
+//go:norace
 func Yield(what string) {
 	s := S
 	if s == nil || s.dying {
@@ -405,6 +461,8 @@ func Yield(what string) {
 
 // Block parks the running task until ready() holds. ready must be free of side
 // effects. In teardown it ends the goroutine.
+//
+//go:norace
 func Block(why string, ready func() bool) {
 	s := S
 	if s == nil {
@@ -425,6 +483,8 @@ func Block(why string, ready func() bool) {
 
 // Go starts f as a new task (the rewritten form of a go statement). Outside a
 // simulation it is a plain go statement.
+//
+//go:norace
 func Go(f func()) {
 	s := S
 	if s == nil {
@@ -440,6 +500,8 @@ func Go(f func()) {
 }
 
 // Spawn starts a named task on behalf of a world.
+//
+//go:norace
 func Spawn(name string, f func()) *Task {
 	s := S
 	t := s.newTask(name, f)
@@ -447,7 +509,17 @@ func Spawn(name string, f func()) *Task {
 }
 
 // Join blocks until all given tasks are done.
+//
+//go:norace
 func Join(ts ...*Task) {
+	// the ready predicate below is evaluated by whichever task takes a scheduling
+	// decision: it may only read memory written inside norace code, so work on a
+	// private copy of the caller's slice (no copy(): see pick)
+	cp := make([]*Task, len(ts))
+	for i := range ts {
+		cp[i] = ts[i]
+	}
+	ts = cp
 	for {
 		all := true
 		for _, t := range ts {
@@ -456,6 +528,9 @@ func Join(ts ...*Task) {
 			}
 		}
 		if all {
+			for _, t := range ts {
+				RaceAcquire(&t.joinAt)
+			}
 			return
 		}
 		Block("join", func() bool {
@@ -471,6 +546,8 @@ func Join(ts ...*Task) {
 
 // AwaitClosed is the rewritten form of the statement `<-ch` on a signalling
 // channel (only close is ever observed on it).
+//
+//go:norace
 func AwaitClosed[T any](ch <-chan T) {
 	s := S
 	if s == nil {
@@ -495,6 +572,8 @@ func AwaitClosed[T any](ch <-chan T) {
 }
 
 // Sleep is time.Sleep on the simulated clock.
+//
+//go:norace
 func Sleep(d time.Duration) {
 	s := S
 	if s == nil {
@@ -517,6 +596,8 @@ func Sleep(d time.Duration) {
 }
 
 // Now is time.Now on the simulated clock.
+//
+//go:norace
 func Now() time.Time {
 	s := S
 	if s == nil {
@@ -526,10 +607,14 @@ func Now() time.Time {
 }
 
 // Since is time.Since on the simulated clock.
+//
+//go:norace
 func Since(t time.Time) time.Duration { return Now().Sub(t) }
 
 // Exit is os.Exit: the simulated process dies here. No task is scheduled
 // again; only what simulated endpoints already received survives.
+//
+//go:norace
 func Exit(code int) {
 	s := S
 	if s == nil {
@@ -547,6 +632,8 @@ func Exit(code int) {
 }
 
 // Fail records a violation and ends the run.
+//
+//go:norace
 func Fail(clause, format string, a ...interface{}) {
 	s := S
 	if s == nil {
@@ -565,6 +652,8 @@ func Fail(clause, format string, a ...interface{}) {
 }
 
 // EndRun ends the run without a violation (e.g. budget reached by the world).
+//
+//go:norace
 func EndRun() {
 	s := S
 	if s.dying {
@@ -579,6 +668,8 @@ func EndRun() {
 
 // PoolPolicy is drawn once per run at the first pool operation:
 // 0 LIFO, 1 FIFO, 2 random, 3 random with misses and drops.
+//
+//go:norace
 func (s *Sim) PoolPolicy() int {
 	if !s.polSet {
 		s.polSet = true
@@ -588,11 +679,15 @@ func (s *Sim) PoolPolicy() int {
 }
 
 // SetPoolPolicy fixes the pool policy of this run.
+//
+//go:norace
 func (s *Sim) SetPoolPolicy(p int) { s.polSet = true; s.pol = p }
 
 // Settle lets every task that can run do so until all of them are blocked or
 // asleep: the clock only advances when nothing is runnable, and every duration
 // in the worlds is a multiple of 1µs, so nothing else wakes at now+1ns.
+//
+//go:norace
 func Settle() {
 	Sleep(1)
 	Sleep(1)
@@ -600,6 +695,8 @@ func Settle() {
 
 // Finding records a violation observed by a directed sub-program without
 // ending the run.
+//
+//go:norace
 func Finding(clause, format string, a ...interface{}) {
 	s := S
 	if s == nil || s.dying {
